@@ -74,6 +74,25 @@ def runDel (v : Validator) (root : PPath) (nodes : List (PPath × Node)) (path :
   let body := qs.map (fun p => showPPath p ++ "=" ++ showNode (st.fs p))
   status ++ " " ++ toString st.log.length ++ " " ++ " ".intercalate body
 
+/-- emptiness of a directory on the driver's finite file system: no candidate path directly below `p` exists -/
+def isEmptyIn (cand : List PPath) (fs : FS) (p : PPath) : Bool :=
+  cand.all fun q => !(q != [] && q.dropLast == p && (fs q).isSome)
+
+def prefixesOf (root : PPath) (comps : List Name) : List PPath :=
+  (List.range (comps.length + 1)).map fun i => root ++ comps.take i
+
+/-- `c17.uwtw <validator> <root> <nfs> <node>… <nent> <entry>… <query>…`: the write phase of update_working_tree -/
+def runUwtWrite (v : Validator) (root : PPath) (nodes : List (PPath × Node)) (entries : List Entry)
+    (queries : List PPath) : String :=
+  let fs : FS := nodes.foldl (fun fs pn => fs.set pn.1 (some pn.2)) (fun _ => none)
+  let cand := dedup (nodes.map (·.1) ++ queries ++ entries.flatMap (fun e => prefixesOf root (splitOn 47 e.path)))
+  let (st, err) := uwtWritePhaseG Gen.PathSafe.uwtFreshCache (isEmptyIn cand) (v.run foldAscii) root entries
+    { fs := fs, log := [], safe := [] }
+  let status := match err with | none => "ok" | some e => e.toString
+  let qs := dedup (queries ++ st.log.map Mut.target)
+  let body := qs.map (fun p => showPPath p ++ "=" ++ showNode (st.fs p))
+  status ++ " " ++ toString st.log.length ++ " " ++ " ".intercalate body
+
 def handle (op : String) (args : List String) : Option String :=
   match op, args with
   | "c17.elem", v :: h :: tbl => some <| match validator? v, bytes? h, parseFold tbl with
@@ -103,6 +122,16 @@ def handle (op : String) (args : List String) : Option String :=
       let entries ← ((rest.drop 1).take nent).mapM entry?
       let queries ← ((rest.drop 1).drop nent).mapM ppath?
       some (runBift v root nodes entries queries)).getD "bad-arg"
+  | "c17.uwtw", v :: root :: nfs :: rest => some <| (do
+      let v ← validator? v
+      let root ← ppath? root
+      let nfs ← nat? nfs
+      let nodes ← (rest.take nfs).mapM node?
+      let rest := rest.drop nfs
+      let nent ← nat? (← rest.head?)
+      let entries ← ((rest.drop 1).take nent).mapM entry?
+      let queries ← ((rest.drop 1).drop nent).mapM ppath?
+      some (runUwtWrite v root nodes entries queries)).getD "bad-arg"
   | "c17.del", v :: root :: nfs :: rest => some <| (do
       let v ← validator? v
       let root ← ppath? root
